@@ -432,7 +432,7 @@ def models():
                 scalars=[S_42], qn=9, tn=9, rootk='m', nodup=True, qtags=(),
                 rtypes=[]))
     # ---- a savorize hook that fails on a nested object ---------------------------
-    rs2 = C('Rs2', [P('a', INT)], sav=['raise_seasoning'])
+    rs2 = C('Rs2', [P('a', INT)], sav=['raise_seasoning', 'noargs'])
     hr = C('Hr', [P('a', INT), P('r', U(K('Rs2'), INT))])
     ms.append(M('savnest', [rs2, hr], [K('Hr')], keys=['a', 'r'],
                 scalars=[S_42], qn=7, tn=7, rootk='m', nodup=True, qtags=(),
@@ -509,6 +509,13 @@ def models():
     ms.append(M('season', [it2, hq, hm, hi], [K('Hq'), K('Hm'), K('Hi')],
                 keys=['items', 'id', 'price', 'desc'], scalars=[S_42, S_ABC],
                 family='fuzz', qn=1, tn=1, rtypes=[]))
+    # a savorize hook that reads the value of a scalar attribute, and Unions
+    # that contain Any (fuzz only)
+    hv = C('Hv', [P('x', INT), P('f', FLOAT, ['float', '1.5'])],
+           sav=['read_value', 'x', 'f'])
+    ms.append(M('readval', [hv], [K('Hv'), Opt(ANY), L(U(ANY, INT))],
+                keys=['x', 'f'], scalars=[S_42, S_15],
+                family='fuzz', qn=1, tn=1, rtypes=[]))
     # unusual spellings of scalar values, for the value requirements of
     # UnknownNode (family 'req': explored by MC_Require only)
     ms.append(M('reqvals', [], [ANY], keys=['a', 'b'],
@@ -543,6 +550,33 @@ def models():
     ms.append(M('seqstr', [us5, hu], [K('Hu')], keys=['a', 'b'],
                 scalars=[S_ABC], qn=5, tn=5, an=5, rootk='m', nodup=True,
                 aliask=('s',), cyc=False, rtypes=[]))
+    # ---- diamond inheritance: the common base's hooks must run once (round 6) ----
+    ga = C('Ga', [P('x', INT)], sav=['none'], swe=['none'])
+    gb = C('Gb', [P('x', INT)], bases=['Ga'], sav=['none'], swe=['none'])
+    gc = C('Gc', [P('x', INT)], bases=['Ga'])
+    gd = C('Gd', [P('x', INT), P('y', INT)], bases=['Gb', 'Gc'],
+           sav=['none'], swe=['none'])
+    ms.append(M('diamond', [ga, gb, gc, gd], [K('Ga'), K('Gd')],
+                keys=['x', 'y'], scalars=[S_42], qn=5, tn=5, rootk='m',
+                nodup=True, rtypes=[K('Gd')]))
+    # ---- an abstract class whose only registered subclass is abstract too ------
+    ab0 = C('Ab0', [], abstract=True)
+    ab1 = C('Ab1', [], bases=['Ab0'], abstract=True)
+    ht = C('Ht', [P('b', K('Ab0'))])
+    ms.append(M('absonly', [ab0, ab1, ht], [K('Ht')], keys=['b', 'x'],
+                scalars=[S_42], qn=5, tn=5, rootk='m', nodup=True, rtypes=[]))
+    # ---- Path and date attributes of a class (round 6) -------------------------
+    pdc = C('Pd', [P('p', PATH), P('d', DATE), P('o', Opt(PATH), ['null'])])
+    ms.append(M('pathdate', [pdc], [K('Pd')], rtypes=[K('Pd'), L(K('Pd'))], keys=['p', 'd', 'o'],
+                scalars=[S_ABC, S_DATE, S_42], strs=['abc', '42'],
+                stags=['!Path'], qn=6, tn=7, qo=5, to=6, an=5, nodup=True, rootk='m',
+                aliask=('s',), cyc=False))
+    # ---- containers nested in containers as attributes (round 6) ---------------
+    dq = C('Dq', [P('x', INT)])
+    dn = C('Dn', [P('m', D(L(K('Dq')))), P('o', Opt(L(INT)), ['null'])])
+    ms.append(M('deepcont', [dq, dn], [K('Dn')], keys=['m', 'o', 'x', 'abc'],
+                scalars=[S_42], strs=['abc'], qn=8, tn=9, rootk='m',
+                nodup=True, qo=7, to=8))
     # default-value removal in a class that also takes _yatiml_extra (whose own
     # default must not shift the defaults of the attributes)
     dx = C('Dx', [P('n', STR), P('g', INT, ['int', '42']), P('o', INT, ['int', '0'])],
